@@ -2,6 +2,7 @@ import SJ.Props.C01
 import SJ.Props.C01Iff
 import SJ.Props.C01Ap
 import SJ.Props.C01Rv
+import SJ.Props.C01Range
 #print axioms SJ.Props.C01.c01_complete_value
 #print axioms SJ.Props.C01.c01_complete_sideConditions
 #print axioms SJ.Props.C01.c01_complete_value_ap
@@ -41,3 +42,9 @@ import SJ.Props.C01Rv
 #print axioms SJ.Props.C01Rv.c01_rv_token_extra_member
 #print axioms SJ.Props.C01Rv.c01_rv_token_eof
 #print axioms SJ.Props.C01Rv.c01_rv_sound
+#print axioms SJ.Props.C01Range.c01_range_fr
+#print axioms SJ.Props.C01Range.c01_accepts_iff_fr
+#print axioms SJ.Props.C01Range.c01_range_default_band
+#print axioms SJ.Props.C01Range.c01_default_rejects_finite
+#print axioms SJ.Props.C01Range.c01_default_accepts_infinite
+#print axioms SJ.Props.C01Range.c01_range_oracle
